@@ -164,7 +164,9 @@ func concurrentCaptureRule(c *Ctx, rule string, inScope func(pkgRel string) bool
 		var pending []pend
 		for _, f := range launched {
 			for _, fv := range f.FreeVars {
-				pt, isPtr := fv.Type().Underlying().(interface{ Elem() interface{ String() string } })
+				pt, isPtr := fv.Type().Underlying().(interface {
+					Elem() interface{ String() string }
+				})
 				_ = pt
 				_ = isPtr
 				ts := fv.Type().String()
